@@ -60,6 +60,9 @@ def operations(tier: str) -> List[Tuple]:
         ops.append((meth, []))
     for meth in ("unsubscribe_from_all", "pause_all_subscriptions", "resume_all_subscriptions"):
         ops.append((meth,))
+    # the same Client object on a new connection: after a lost connection and after a polite disconnect
+    ops.append(("reconnect_after_loss",))
+    ops.append(("disconnect_connect",))
     for meth in ("subscription_context", "paused_subscription_context"):
         for lst in arg_lists(3, (A, B, C)):
             ops.append((meth, list(lst)))
@@ -130,7 +133,24 @@ class Rig:
         with warnings.catch_warnings():
             warnings.simplefilter("ignore")
             try:
-                if meth.endswith("_context"):
+                if meth in ("reconnect_after_loss", "disconnect_connect"):
+                    if meth == "disconnect_connect":
+                        c.disconnect()
+                    else:
+                        for end in (c._sock, c._sock.peer_sock):
+                            end.peer = "rst"
+                            end.err = True
+                        for _ in range(40):
+                            try:
+                                c.read_message(timeout=0)
+                            except self.CL.ConnectionLost:
+                                break
+                    self.w.settle()
+                    c.connect(mmx.SERVER, allow_multiple=True) if self.twin_on else c.connect(mmx.SERVER)
+                    self.w.settle()
+                    self.c_mgr_side = c._sock.peer_sock
+                    c._sock.rx.clear()
+                elif meth.endswith("_context"):
                     cm = getattr(c, meth)(list(op[1]))
                     cm.__enter__()
                     self.w.settle()
@@ -189,6 +209,18 @@ class Rig:
         if arrived != expect:
             probs.append({"kind": "delivered-vs-claimed", "where": where, "delivered": [NAMES[t] for t in arrived],
                           "client_reports": [NAMES.get(t, t) for t in sorted(claimed)]})
+        # what the manager publishes itself is delivered under the same rule: a report period elapses; the report reaches the
+        # client exactly when it claims to be subscribed to everything (no type of the universe is TIMING_MESSAGE)
+        before = len(c._sock.rx)
+        self.w.tick(1.05)
+        self.w.step()
+        self.w.settle()
+        fr2, _r2, _p2 = P.parse_stream(bytes(c._sock.rx[before:]), self.tc)
+        got_timing = sum(1 for f in fr2 if f.msg_type == P.MT_TIMING_MESSAGE and f.src_mod_id == 0)
+        if (got_timing > 0) != (claimed == {ALL}):
+            probs.append({"kind": "manager-originated-type-vs-claimed", "where": where, "timing_reports_delivered": got_timing,
+                          "client_reports": [NAMES.get(t, t) for t in sorted(claimed)]})
+        del c._sock.rx[before:]
         pz = [t for t in c.paused_subscribed_types if t in arrived]
         if pz:
             probs.append({"kind": "paused-type-delivered", "where": where, "types": [NAMES[t] for t in pz]})
